@@ -1,10 +1,11 @@
-CONSTANTS Dates = {1, 2, 3}
-          Stamps = {1, 2, 3, 4}
+CONSTANTS Dates = {1}
+          Stamps = {1, 2, 3}
           Vals = {1, 2}
-          MaxMerges = 4
+          MaxMerges = 3
           MaxAgain = 1
           Stable = TRUE
           Zones = {0}
           ZoneAware = TRUE
 INIT Init
-NEXT NextGenAll
+NEXT NextGenR
+PROPERTY GenIsSpec
